@@ -1162,7 +1162,11 @@ def cases(tier):
     out.append((I, {"pattern": "ring8", "ky": 3, "kx": 3, "specs": ["D1", "R33s1"], "mode": "data", "signed": False}))
     out.append((I, {"pattern": "cross5", "ky": 3, "kx": 3, "specs": ["D2"], "mode": "data", "signed": False}))
     for (ky, kx) in nonsq:
-        out.append((I, {"pattern": "cross5", "ky": ky, "kx": kx, "specs": ["R33s2d", "F1"], "mode": "data", "signed": False, "solve": True}))
+        # signed values in non-square kernels (automatically reduced to non-negative ones only while 'nonsquare-shift' is recorded as known)
+        out.append((I, {"pattern": "cross5", "ky": ky, "kx": kx, "specs": ["R33s2d", "F1"], "mode": "data", "signed": True, "solve": True}))
+        out.append((I, {"pattern": "zig4", "ky": ky, "kx": kx, "specs": ["R33s1", "R34s2d"], "mode": "noise", "signed": True}))
+    out.append((I, {"pattern": "cross5", "ky": 1, "kx": 3, "specs": ["R33s2d", "F1"], "mode": "data", "signed": False, "solve": True}))
+    out.append((I, {"pattern": "cross5", "ky": 5, "kx": 3, "specs": ["R33s2d", "R33s1n"], "mode": "data", "signed": False, "solve": True}))
     out.append((I, {"pattern": "L3", "ky": 3, "kx": 3, "specs": ["R33s1"], "mode": "kernel", "ksym": [0, 4, 7]}))
     out.append((I, {"pattern": "pair", "ky": 3, "kx": 3, "specs": ["F1", "R33s2d"], "mode": "kernel"}))
     out.append((I, {"pattern": "block4", "ky": 3, "kx": 3, "specs": ["R33s1", "F1"], "mode": "kernel", "ksym": [0, 4, 7]}))
